@@ -1,7 +1,7 @@
 (* C08/Examples.v — non-vacuity: concrete values through the models. *)
 From Coq Require Import List NArith ZArith Bool Lia.
 From Common Require Import Bytes Outcome.
-From C08 Require Import Model ModelCD ModelLL ModelSub ModelFL.
+From C08 Require Import Model ModelCD ModelLL ModelSub ModelSub2 ModelFL.
 Import ListNotations.
 Local Open Scope N_scope.
 
@@ -146,6 +146,26 @@ Example fl_example :
   match M_fl_encode [([108; 105; 103; 97], [0; 2]); ([107; 101; 114; 110], [])] with
   | Ok b => b = [0;2;  108;105;103;97; 0;14;  107;101;114;110; 0;22;  0;0; 0;2; 0;0; 0;2;  0;0; 0;0] /\
             M_fl_read b 0 = Ok [([108; 105; 103; 97], [0; 2]); ([107; 101; 114; 110], [])]
+  | _ => False
+  end.
+Proof. vm_compute. split; reflexivity. Qed.
+
+(* GSUB 4.1: f -> {f i -> fi, f f i -> ffi}; the set of glyph 4 is empty *)
+Example gsub41_example :
+  match M_gsub41_encode (S_cov_table [3; 4]) [[(90, [8]); (91, [3; 8])]; []] with
+  | Ok b => M_gsub41_read b 0 = Ok (S_cov_pairs [3; 4], [[(90, [8]); (91, [3; 8])]; []]) /\
+            M_gsub41_len (S_cov_table [3; 4]) [[(90, [8]); (91, [3; 8])]; []] = Ok (lenN b)
+  | _ => False
+  end.
+Proof. vm_compute. split; reflexivity. Qed.
+
+(* GPOS 2.1: two left glyphs; Second is nil everywhere (format 0: stays nil),
+   First nil next to a real record comes back as the zero record *)
+Definition gp21 : list pgroup := [(3, [(7, (vr1, None)); (9, (None, None))]); (5, [(7, (vr1, None))])].
+Example gpos21_example :
+  match M_gpos21_encode gp21 with
+  | Ok b => M_gpos21_read b 0 = Ok [(3, [(7, (vr1, None)); (9, (Some vr_zero, None))]); (5, [(7, (vr1, None))])] /\
+            M_gpos21_len gp21 = Ok (lenN b)
   | _ => False
   end.
 Proof. vm_compute. split; reflexivity. Qed.
